@@ -250,9 +250,23 @@ def _run_loader(case):
                 h0, h1 = np.asarray(halves[k][s_, 0]), np.asarray(halves[k][s_, 1])
                 _compare(df["freq"].to_numpy(), df[f"FSC-{s_}"].to_numpy(), h0 * mref, h1 * mref, dfreq, f"group {k} set {s_}", viol, sig)
     else:
+        # the un-normalised variant (zero_norm=False: no subtraction of the global mean) must honour the mask in the same way
+        outz = ld.fsc_with_halfmaps(mask=mask, seed=seed, n_set=n_set, dfreq=dfreq, squeeze=False, zero_norm=False)
+        mz = np.asarray(outz.mask) if mk != "none" else np.ones(box, dtype=np.float32)
+        if mk != "none" and np.shape(mz) != box:
+            viol.append((sig("mask-dropped-without-zero_norm"), f"fsc_with_halfmaps(zero_norm=False) used the mask {outz.mask!r} of shape {np.shape(mz)} instead of the requested {mk} mask"))
+        else:
+            if mref is not None and np.abs(mz - mref).max() > 1e-6:
+                viol.append((sig("mask-not-the-requested-one"), f"zero_norm=False: mask differs from the requested one by {np.abs(mz - mref).max():.3g}"))
+            for s_ in range(n_set):
+                h0, h1 = np.asarray(outz.halfmaps[0][s_]), np.asarray(outz.halfmaps[1][s_])
+                _compare(outz.fsc["freq"].to_numpy(), outz.fsc[f"FSC-{s_}"].to_numpy(), h0 * (mref if mref is not None else mz), h1 * (mref if mref is not None else mz), dfreq, f"zero_norm=False set {s_}", viol, sig)
+        outa = ld.fsc_with_average(mask=mask, seed=seed, n_set=n_set, dfreq=dfreq)
         out = ld.fsc_with_halfmaps(mask=mask, seed=seed, n_set=n_set, dfreq=dfreq, squeeze=False)
         out2 = ld.fsc_with_halfmaps(mask=mask, seed=seed, n_set=n_set, dfreq=dfreq, squeeze=False)
         df = out.fsc
+        if not outa[0].equals(df):
+            viol.append((sig("fsc_with_average-vs-fsc_with_halfmaps"), "the FSC tables of fsc_with_average() and fsc_with_halfmaps() differ"))
         if not df.equals(out2.fsc):
             viol.append((sig("not-reproducible"), f"two calls with seed {seed} differ"))
         df3 = ld.fsc(mask=mask, seed=seed, n_set=n_set, dfreq=dfreq)
